@@ -165,8 +165,8 @@ Fixpoint dedup (l : list Z) (seen : list Z) : list Z :=
   | [] => []
   | x :: r => if existsb (Z.eqb x) seen then dedup r seen else x :: dedup r (x :: seen)
   end.
-Definition present_types (types : list N) : N :=
-  N.of_nat (List.length (filter (fun t => existsb (N.eqb t) types) [0; 1; 2]%N)).
+(* var tps [3]bool; for _, t := range types { tps[t] = true }: the types present, in index order *)
+Definition present_types (types : list N) : list N := filter (fun t => existsb (N.eqb t) types) [0; 1; 2]%N.
 
 (* var tps [3]bool; tps[t] = true   and   message[i] for i over the timestamps *)
 Definition call_panics (k : call) : bool :=
@@ -179,19 +179,20 @@ Section ONENTRIES.
   Variable fp : labels -> N.                         (* fingerprintLabels *)
   Variable enc_len : labels -> Z.                    (* len(encodeLabels(labels)) *)
   Variable CS : Type.                                (* state of the fingerprint cache *)
-  Variable cache_add : CS -> Z -> N -> CS * bool.    (* maybeAddFp(day, fp): new state, "emit a time_series row" *)
+  Variable cache_add : CS -> Z -> N -> N -> CS * bool.  (* maybeAddFp(day, fp, type): new state, "emit a time_series row" *)
   Variable threshold : Z.                            (* 1 MiB *)
   Variable ctx_ttl : N.                              (* X-Ttl-Days of the request, 0 = none *)
 
-  Definition add_series (lbls : labels) (f : N) (ntypes : N) (days : list Z) (c : chunk) (cs : CS) : chunk * CS :=
-    fold_left (fun acc d =>
+  (* for d := range dates { for t := range tps { if !tps[t] || !maybeAddFp(d, fp, t, cache) { continue }; append one row } } *)
+  Definition add_series (lbls : labels) (f : N) (types : list N) (days : list Z) (c : chunk) (cs : CS) : chunk * CS :=
+    fold_left (fun acc dt =>
                  let '(c, cs) := acc in
-                 let '(cs', add) := cache_add cs d f in
+                 let '(cs', add) := cache_add cs (fst dt) f (snd dt) in
                  if add then
                    (CH (ch_ts c) (ch_fp c) (ch_msg c) (ch_val c) (ch_ttl c) (ch_type c) (ch_spl_size c)
-                       (ch_nseries c + ntypes)%N (ch_ts_size c + Z.of_N ntypes * (SERIES_OVERHEAD + enc_len lbls)), cs')
+                       (ch_nseries c + 1)%N (ch_ts_size c + (SERIES_OVERHEAD + enc_len lbls)), cs')
                  else (c, cs'))
-              days (c, cs).
+              (flat_map (fun d => map (fun t => (d, t)) types) days) (c, cs).
 
   (* None = the goroutine panics (recovered by tamePanic: the request fails, the open chunk is lost) *)
   Definition on_entries (st : chunk * CS) (k : call) : option ((chunk * CS) * list chunk) :=
@@ -396,7 +397,7 @@ Section DECODE.
   Variable fp : labels -> N.
   Variable enc_len : labels -> Z.
   Variable CS : Type.
-  Variable cache_add : CS -> Z -> N -> CS * bool.
+  Variable cache_add : CS -> Z -> N -> N -> CS * bool.
   Variable cache0 : CS.
   Variable threshold : Z.
   Variable flush_limit : N.
@@ -557,16 +558,16 @@ Definition chunk_eqb (a b : chunk) : bool :=
   (ch_spl_size a =? ch_spl_size b) && (ch_nseries a =? ch_nseries b)%N && (ch_ts_size a =? ch_ts_size b).
 
 (* the harness runs with a cache that never reports a hit (a clustered deployment): every (day, fp) adds rows *)
-Definition miss_cache (cs : unit) (d : Z) (f : N) : unit * bool := (tt, true).
+Definition miss_cache (cs : unit) (d : Z) (f : N) (t : N) : unit * bool := (tt, true).
 
-(* ... or with a cache that remembers every (day, fingerprint) it was asked about (a standalone deployment, within one request) *)
-Definition set_cache (cs : list (Z * N)) (d : Z) (f : N) : list (Z * N) * bool :=
-  if existsb (fun e => (fst e =? d) && (snd e =? f)%N) cs then (cs, false) else ((d, f) :: cs, true).
+(* ... or with a cache that remembers every (day, fingerprint, type) it was asked about (a standalone deployment, within one request) *)
+Definition set_cache (cs : list (Z * N * N)) (d : Z) (f : N) (t : N) : list (Z * N * N) * bool :=
+  if existsb (fun e => (fst (fst e) =? d) && (snd (fst e) =? f)%N && (snd e =? t)%N) cs then (cs, false) else ((d, f, t) :: cs, true).
 
 Definition model_result (c : case) : result :=
   match c_cache c with
   | CMiss => decode (tab_fp (c_tab c)) (tab_enclen (c_tab c)) unit miss_cache tt THRESHOLD FLUSH_LIMIT (c_ctx_ttl c) (c_body c)
-  | CSet => decode (tab_fp (c_tab c)) (tab_enclen (c_tab c)) (list (Z * N)) set_cache [] THRESHOLD FLUSH_LIMIT (c_ctx_ttl c) (c_body c)
+  | CSet => decode (tab_fp (c_tab c)) (tab_enclen (c_tab c)) (list (Z * N * N)) set_cache [] THRESHOLD FLUSH_LIMIT (c_ctx_ttl c) (c_body c)
   end.
 
 (* Influx: the fields of one line are visited in Go map order, so the rows of one line are compared as a
